@@ -193,14 +193,14 @@ impl ArchiveGroupBuilder {
         let mut entries: Vec<ArchiveGroupEntry> = self.entries.into_values().collect();
         entries.sort_by(|a, b| a.encoding_key.cmp(&b.encoding_key));
 
-        // Calculate data size for chunking
+        // Records never straddle a 4KB chunk, so the chunk count follows from the
+        // number of whole records per chunk (not from the total byte size)
         let entry_count = entries.len();
         let bytes_per_entry = 16 + 6 + 4; // key + offset + size
-        let total_data_size = entry_count * bytes_per_entry;
-        let chunk_count = total_data_size.div_ceil(0x1000); // 4KB chunks
+        let entries_per_chunk = 0x1000 / bytes_per_entry;
+        let chunk_count = entry_count.div_ceil(entries_per_chunk);
 
         // Write entries in chunks, collecting last keys for TOC and block hashes
-        let entries_per_chunk = 0x1000 / bytes_per_entry;
         let hash_bytes: u8 = 8;
         let mut toc_keys: Vec<Vec<u8>> = Vec::with_capacity(chunk_count);
         let mut block_hashes: Vec<Vec<u8>> = Vec::with_capacity(chunk_count);
